@@ -5,7 +5,12 @@
    and forward array; touching a freed one is the error state UseAfterFree / UseAfterFreeArr.
    REFUTED for the repository code at the time of writing (both containers, witnesses replayed on the real
    library under ASan: heap-use-after-free); proposed repairs in fixes/C18-*.patch.
-   PARTIAL for the repaired code: proved are (1) the witnesses no longer fail, (2) on layer A (MapRefModel.v, run
+   HASHTABLE, repaired code: C18_hashtable_memory_safe - for ALL histories (every interleaving of iterator
+   create/next/free with put/get/rm/count/foreach/notify/destroy, any number of iterators, next after the end,
+   abandoned iterators, any hash function and table size) the pointer-level model never reaches UseAfterFree,
+   OutOfBounds or RefUnderflow (MapHashProofs3.v, invariant GoodP: refcount = presence + parked iterators >= 1,
+   parked nodes are linked, linked nodes are live cells).
+   Otherwise PARTIAL for the repaired code: proved are (1) the witnesses no longer fail, (2) on layer A (MapRefModel.v, run
    against the library on every check) an iterator only ever returns entries that are present, with their
    current value, and nothing after it reported the end, (3) C17's theorems, which cover traversals abandoned via
    the callback.  MISSING (checked only by the ASan / monitor / correspondence run over generated interleavings):
@@ -14,7 +19,7 @@
    iterators. *)
 From Coq Require Import ZArith List NArith Bool.
 Require Import Verif.gen.Consts_map Verif.MapSpec Verif.MapHashModel Verif.MapSkipModel Verif.MapRefModel
-  Verif.MapRefProofs Verif.MapHashProofs Verif.MapSkipProofs.
+  Verif.MapRefProofs Verif.MapHashProofs Verif.MapHashProofs2 Verif.MapHashProofs3 Verif.MapSkipProofs.
 Import ListNotations.
 
 (* hashtable: put a; iterator parked on a; rm a; get a (still answers 1); rm a again (succeeds, frees the node);
@@ -32,6 +37,33 @@ Theorem C18_hashtable_witness_fixed :
   [ONone; ONone; ONext (Some (MapHashProofs.ka, 1%N)); OBool true; OVal 0%N; OBool false; ONext None].
 Proof. exact hash_c18_witness_fixed. Qed.
 Print Assumptions C18_hashtable_witness_fixed.
+
+(* HASHTABLE, pointer-level model, repaired code: no history touches a freed or out-of-range cell or drops a
+   reference that is not held.  The only error constructor the statement leaves open is OutOfFuel, the model's own
+   bound on the qb_map_foreach loop (it is excluded for iterator-free histories by C17_hashtable_no_error; a
+   general bound is not proved yet). *)
+Theorem C18_hashtable_memory_safe : forall hf rc m ops,
+  match snd (h_run v_fixed hf rc (h_create m) ops) with None => True | Some e => e = OutOfFuel end.
+Proof. exact hash_c18_safe. Qed.
+Print Assumptions C18_hashtable_memory_safe.
+
+(* the invariant behind it, one API call from any state that satisfies it (or from a destroyed map) *)
+Theorem C18_hashtable_invariant_step : forall hf rc s o, TopInv s ->
+  match h_step v_fixed hf rc s o with
+  | Ok (s', _, _) => TopInv s'
+  | Err e => e = OutOfFuel
+  end.
+Proof. exact hash_step_safe. Qed.
+Print Assumptions C18_hashtable_invariant_step.
+
+(* non-vacuity: the state with an iterator parked on a removed entry (the situation of the refutation above) satisfies
+   the invariant in the repaired model: it is reached by a history from the empty table *)
+Example C18_hashtable_invariant_example :
+  match h_state_after v_fixed hf8 rc_consts (h_create 8%N) [Put MapHashProofs.ka 1%N; IterCreate 0 None; IterNext 0; Rm MapHashProofs.ka] with
+  | Ok s => pcount (its s) 0 = 1 /\ exists n, deref (h_heap s) 0 = Ok n /\ hn_removed n = true /\ hn_ref n = 1
+  | Err _ => False
+  end.
+Proof. exact c18_example_state. Qed.
 
 (* skiplist (a): parked on the first entry b; rm b; rm c; iter_next reads the forward array freed by the second
    takeover.  (b): parked on c; rm c; rm its predecessor b (which frees the array c shares); iter_next *)
